@@ -162,6 +162,7 @@ type TraceNode struct {
 	Step   string
 	Thread ThreadID
 	Pos    string
+	Gates  []string // source positions (file:line) to be passed, in order, when this step is replayed natively
 	// merge node
 	Sel  *term.Term
 	A, B *TraceNode
@@ -176,6 +177,7 @@ type Violation struct {
 	Tags  map[string]string
 	Obs   map[string]string
 	Site  string
+	Gates      []string
 	ModelTyped map[string]interface{}
 	ObsTyped   map[string]interface{}
 	Blocked    []string
